@@ -60,3 +60,18 @@ Theorem C14_edgelist_end_nodes_valid : forall ls names0 names es,
   (exists ext, names = names0 ++ ext).
 Proof. exact EdgeProofs.parse_edges_nodes_lt. Qed.
 Print Assumptions C14_edgelist_end_nodes_valid.
+
+(* ---------- the element encoding (include/cmr/element.h, translated on every run): rows are -1-k, columns 1+k, the
+   predicates and index functions invert them — the convention the edge-list labels r<k> / c<k> rely on ---------- *)
+From Cmr Require LeafGen LeafProofs.
+Theorem C14_element_encoding_row : forall k, 0 <= k <= 2147483647 ->
+  exists e, LeafGen.c_CMRrowToElement k = Some e /\ LeafGen.c_CMRelementIsRow e = Some 1 /\
+    LeafGen.c_CMRelementIsColumn e = Some 0 /\ LeafGen.c_CMRelementIsValid e = Some 1 /\ LeafGen.c_CMRelementToRowIndex e = Some k.
+Proof. exact LeafProofs.elements_roundtrip_row. Qed.
+Print Assumptions C14_element_encoding_row.
+
+Theorem C14_element_encoding_column : forall k, 0 <= k <= 2147483646 ->
+  exists e, LeafGen.c_CMRcolumnToElement k = Some e /\ LeafGen.c_CMRelementIsRow e = Some 0 /\
+    LeafGen.c_CMRelementIsColumn e = Some 1 /\ LeafGen.c_CMRelementIsValid e = Some 1 /\ LeafGen.c_CMRelementToColumnIndex e = Some k.
+Proof. exact LeafProofs.elements_roundtrip_column. Qed.
+Print Assumptions C14_element_encoding_column.
